@@ -208,7 +208,7 @@ def build(repo, trace):
     enums = opcodes.parse(repo, rsx.Trace())
     sem = Sem(enums)
     extra = extract_choice(repo, trace) + '\n' + extract_ssaop_impl(repo, trace) + '\n' + \
-        '#[verifier::external_body]\nstruct VarMap { x: std::collections::HashMap<u64, usize> }\nuse std::sync::Arc;\n\n' + extract_data(repo, trace)
+        '#[verifier::external_body]\nstruct VarMap { x: std::collections::HashMap<u64, usize> }\n// opaque accessors of the external type (no contract: nothing is known about their results)\nimpl VarMap {\n    #[verifier::external_body]\n    fn len(&self) -> usize { unimplemented!() }\n    #[verifier::external_body]\n    fn is_empty(&self) -> bool { unimplemented!() }\n}\nuse std::sync::Arc;\n\n' + extract_data(repo, trace)
     text = alloc_text.replace('\n} // verus!', '\n// ======== unit simplify: items from vm/data.rs, vm/choice.rs, compiler/op.rs ========\n' + extra + '\n} // verus!')
     text, arms = rewrite_simplify(text, trace)
     inj = Injector(text, trace)
